@@ -84,35 +84,42 @@ def ground_index_terms(forms):
 
 
 def var_positions(body, nvars):
-    """for each de-Bruijn var index: set of (fname, argpos) under which it occurs directly"""
+    """for each de-Bruijn var index of the outer quantifier: set of (fname, argpos[, offset])
+    under which it occurs directly (also inside nested quantifiers, whose binders shift the index)"""
     pos = {i: set() for i in range(nvars)}
     seen = set()
 
-    def visit(t):
-        if t.get_id() in seen:
+    def visit(t, shift):
+        key = (t.get_id(), shift)
+        if key in seen:
             return
-        seen.add(t.get_id())
+        seen.add(key)
         if z3.is_quantifier(t):
+            visit(t.body(), shift + t.num_vars())
             return
         if z3.is_app(t):
             d = t.decl()
             if d.kind() == z3.Z3_OP_UNINTERPRETED:
                 for i, a in enumerate(t.children()):
                     if z3.is_var(a):
-                        pos[z3.get_var_index(a)].add((d.name(), i))
+                        vi = z3.get_var_index(a) - shift
+                        if 0 <= vi < nvars:
+                            pos[vi].add((d.name(), i))
                     elif a.sort().kind() == z3.Z3_INT_SORT and z3.is_app(a) and a.num_args() == 2:
-                        # k + c  /  k - c : offset triggers
                         x, y = a.arg(0), a.arg(1)
                         if z3.is_var(x) and z3.is_int_value(y):
                             off = y.as_long() if a.decl().kind() == z3.Z3_OP_ADD else (-y.as_long() if a.decl().kind() == z3.Z3_OP_SUB else None)
-                            if off is not None:
-                                pos[z3.get_var_index(x)].add((d.name(), i, off))
+                            vi = z3.get_var_index(x) - shift
+                            if off is not None and 0 <= vi < nvars:
+                                pos[vi].add((d.name(), i, off))
                         elif z3.is_var(y) and z3.is_int_value(x) and a.decl().kind() == z3.Z3_OP_ADD:
-                            pos[z3.get_var_index(y)].add((d.name(), i, x.as_long()))
+                            vi = z3.get_var_index(y) - shift
+                            if 0 <= vi < nvars:
+                                pos[vi].add((d.name(), i, x.as_long()))
             for c in t.children():
-                visit(c)
+                visit(c, shift)
 
-    visit(body)
+    visit(body, 0)
     return pos
 
 
@@ -184,7 +191,7 @@ def prepare(eng, ob, inst_rounds=3, level=0):
     for f in neg:
         add(f, negs)
     allf = base + negs
-    extra = spec.saturate(eng, allf, level=level)
+    extra = spec.saturate(eng, allf, level=level, goal=(negs if negs else None))
     for e in extra:
         add(e, allf)
     quants = [f for f in allf if z3.is_quantifier(f) and f.is_forall()]
@@ -212,7 +219,7 @@ def prepare(eng, ob, inst_rounds=3, level=0):
                     fresh.append(g)
         if not fresh:
             break
-        extra2 = spec.saturate(eng, fresh, rounds=2, level=level)
+        extra2 = spec.saturate(eng, fresh, rounds=2, level=level, goal=(negs if negs else None))
         for e in extra2:
             for g in split_top(e):
                 if g.get_id() not in seen:
